@@ -377,7 +377,65 @@ impl<'a> Session<'a> {
         self.w.scripts[w.script as usize].is_plutus()
     }
 
+    /// The same output as another program would hand it over: serialized in the requested container
+    /// form by the harness's own writer and decoded by the library (which remembers the form).
+    fn reform(out: csl::TransactionOutput, form: u8) -> Result<csl::TransactionOutput, Res> {
+        if form == 0 {
+            return Ok(out);
+        }
+        let bytes = out.to_bytes();
+        let node = match crate::cbor::parse(&bytes) {
+            Ok(n) => n,
+            Err(_) => return Ok(out),
+        };
+        let mut enc: Vec<u8> = vec![];
+        if let Some(items) = node.as_array() {
+            if form == 1 {
+                enc = bytes.clone();
+            } else {
+                crate::cbor::w_map(&mut enc, items.len() as u64);
+                for (i, it) in items.iter().enumerate() {
+                    crate::cbor::w_uint(&mut enc, i as u64);
+                    if i == 2 {
+                        crate::cbor::w_array(&mut enc, 2);
+                        crate::cbor::w_uint(&mut enc, 0);
+                    }
+                    enc.extend_from_slice(it.span(&bytes));
+                }
+            }
+        } else if let Some(entries) = node.as_map() {
+            let hash_only = entries.iter().all(|(k, v)| match k.as_u64() {
+                Some(0) | Some(1) => true,
+                Some(2) => v.idx(0).and_then(|t| t.as_u64()) == Some(0),
+                _ => false,
+            });
+            if form == 1 && hash_only {
+                crate::cbor::w_array(&mut enc, entries.len() as u64);
+                for want in 0..3u64 {
+                    for (k, v) in entries {
+                        if k.as_u64() == Some(want) {
+                            if want == 2 {
+                                enc.extend_from_slice(v.idx(1).unwrap().span(&bytes));
+                            } else {
+                                enc.extend_from_slice(v.span(&bytes));
+                            }
+                        }
+                    }
+                }
+            } else {
+                enc = bytes.clone();
+            }
+        } else {
+            return Ok(out);
+        }
+        guard(|| csl::TransactionOutput::from_bytes(enc).map_err(|e| csl::JsError::from_str(&format!("{:?}", e))))
+    }
+
     pub fn output(&self, o: &OutSpec) -> Result<csl::TransactionOutput, Res> {
+        Self::reform(self.output_plain(o)?, o.form)
+    }
+
+    fn output_plain(&self, o: &OutSpec) -> Result<csl::TransactionOutput, Res> {
         let addr = self.w.address(&o.addr);
         if o.min_coin {
             let w = self.w;
@@ -1599,6 +1657,48 @@ impl<'a> Session<'a> {
                 let t = g!(tx.build_tx());
                 let body = t.body();
                 self.record_built(idx, true, Some(t), body);
+                Res::Ok
+            }
+            Op::Observe => {
+                let tx = &self.tx;
+                let r = guard(|| {
+                    for _ in 0..2 {
+                        let _ = tx.min_fee();
+                        let _ = tx.full_size();
+                        let _ = tx.output_sizes();
+                        let _ = tx.get_explicit_input();
+                        let _ = tx.get_implicit_input();
+                        let _ = tx.get_total_input();
+                        let _ = tx.get_explicit_output();
+                        let _ = tx.get_total_output();
+                        let _ = tx.get_deposit();
+                        let _ = tx.get_fee_if_set();
+                        let _ = tx.get_reference_inputs();
+                        let _ = tx.get_native_input_scripts();
+                        let _ = tx.get_plutus_input_scripts();
+                        let _ = tx.get_extra_witness_datums();
+                        let _ = tx.get_auxiliary_data();
+                        let _ = tx.get_mint();
+                        let _ = tx.get_mint_scripts();
+                        let _ = tx.build();
+                        let _ = tx.build_tx();
+                    }
+                    Ok(())
+                });
+                match r {
+                    Ok(()) => Res::Ok,
+                    Err(r) => r,
+                }
+            }
+            Op::ForkClone => {
+                self.tx = self.tx.clone();
+                self.inb = self.inb.clone();
+                self.colb = self.colb.clone();
+                self.certs = self.certs.clone();
+                self.wdrs = self.wdrs.clone();
+                self.mint = self.mint.clone();
+                self.votes = self.votes.clone();
+                self.props = self.props.clone();
                 Res::Ok
             }
         }
